@@ -469,10 +469,10 @@ Corollary src2_security_context_loaded : forall import_key read_cert path_exists
   (forall dt, xmlsec_backend (PStr bin) (PBool dt) = crypto) -> is_bad crypto = false ->
   (forall p, import_key (PStr (key_path p)) = match fread fs p with Some k => enc_key k | None => PExc "OSError" end) ->
   (forall p, read_cert (PStr (cert_path p)) = match fread fs p with Some c => enc_cert c | None => PExc "OSError" end) ->
-  forall p cf r md dt eks extra, is_bad md = false ->
+  forall p cf ld r md dt eks extra, is_bad md = false ->
     let conf := enc_conf key_path cert_path bin p md dt eks extra in
     src2_security_context import_key read_cert path_exists find_xmlsec xmlsec_backend conf
-    = match loaded fs cf (DCreate p :: r), loaded fs cf r with
+    = match loaded fs cf ld (DCreate p :: r), loaded fs cf ld r with
       | (k, c) :: l, l' => if Nat.eqb (length l) (length l')
                            then PList [enc_secctx key_path cert_path crypto p k c md eks; conf]
                            else PList [PExc "OSError"; conf]
@@ -480,13 +480,13 @@ Corollary src2_security_context_loaded : forall import_key read_cert path_exists
       end.
 Proof.
   intros import_key read_cert path_exists find_xmlsec xmlsec_backend key_path cert_path fs bin crypto
-         H1 H2 H3 H4 H5 H6 H7 p cf r md dt eks extra Hmd conf.
+         H1 H2 H3 H4 H5 H6 H7 p cf ld r md dt eks extra Hmd conf.
   unfold conf.
   rewrite (src2_security_context_is_model import_key read_cert path_exists find_xmlsec xmlsec_backend
              key_path cert_path fs bin crypto H1 H2 H3 H4 H5 H6 H7 p md dt eks extra Hmd).
-  cbn [loaded]. destruct (build_at fs p) as [[k c]|] eqn:B; cbn [ocons enc_build].
+  unfold loaded. cbn [loaded_gen]. destruct (build_at fs p) as [[k c]|] eqn:B; cbn [ocons enc_build].
   - rewrite Nat.eqb_refl. reflexivity.
-  - destruct (loaded fs cf r) as [|[k c] l] eqn:L; [reflexivity|].
+  - destruct (loaded_gen true fs cf ld r) as [|[k c] l] eqn:L; [reflexivity|].
     replace (Nat.eqb (length l) (length ((k, c) :: l))) with false; [reflexivity|].
     symmetry. apply Nat.eqb_neq. cbn [length]. lia.
 Qed.
@@ -517,4 +517,311 @@ Proof.
   repeat split; try reflexivity.
   - intros p. cbn [String.length]. rewrite ones_len, Nat.sub_succ, Nat.sub_0_r. reflexivity.
   - intros p. cbn [String.length]. rewrite ones_len, Nat.sub_succ, Nat.sub_0_r. reflexivity.
+Qed.
+
+
+(* ---------------------------------------------------------------------------------------------------------------
+   config.Config._load / Config.load_file: the loader of python configuration files, against Model.load_module.
+   The interpreter's import machinery and os.path enter as functions of the call; the hypotheses say what they answer
+   in the loader state st (Model.lstate: configuration files on disk, sys.modules, the directories earlier loads put
+   on sys.path).  Directories and base names are numbers in the model; head_of / abs_of / base_name / file_name are
+   their spellings. *)
+Inductive lres := LMod (d c : nat) | LRaise (n : string).
+
+(* importlib.import_module(base) once sys.path.insert(0, dir) is done: sys.modules first (keyed by the base name
+   alone), then the directories of sys.path in order *)
+Definition import_result (st : lstate) (d b : nat) : option (nat * nat) :=
+  match mod_find (mods st) b with
+  | Some f => Some f
+  | None => path_find (cfiles st) (d :: spath st) b
+  end.
+
+(* the module Config._load hands back: (directory it lies in, path its CONFIG names), or the exception *)
+Definition load_which (st : lstate) (d b : nat) : lres :=
+  match import_result st d b with
+  | None => LRaise "ModuleNotFoundError"
+  | Some (d0, c0) =>
+      match cf_read (cfiles st) d b with
+      | Some cnow => if Nat.eqb d0 d then LMod d0 c0
+                     else match cf_read (cfiles st) d0 b with
+                          | Some _ => LMod d cnow
+                          | None => LRaise "FileNotFoundError"
+                          end
+      | None => LMod d0 c0
+      end
+  end.
+
+Definition lres_content (r : lres) : option nat := match r with LMod _ c => Some c | LRaise _ => None end.
+
+(* ... is Model.load_module (current code) *)
+Lemma load_which_is_model st d b : lres_content (load_which st d b) = fst (load_module true st d b).
+Proof.
+  unfold load_which, import_result, load_module.
+  destruct (mod_find (mods st) b) as [[d0 c0]|]; cbn [fst answer].
+  - destruct (cf_read (cfiles st) d b); [|reflexivity]. destruct (Nat.eqb d0 d); [reflexivity|].
+    destruct (cf_read (cfiles st) d0 b); reflexivity.
+  - destruct (path_find (cfiles st) (d :: spath st) b) as [[d0 c0]|]; cbn [fst answer]; [|reflexivity].
+    destruct (cf_read (cfiles st) d b); [|reflexivity]. destruct (Nat.eqb d0 d); [reflexivity|].
+    destruct (cf_read (cfiles st) d0 b); reflexivity.
+Qed.
+
+Section Loader.
+  Variables path_split abspath isfile module_from_spec : pyval -> pyval.
+  Variables path_insert import_module path_join samefile spec_from_file exec_module : pyval -> pyval -> pyval.
+  Variable st : lstate.
+  Variables head_of abs_of base_name : nat -> string.     (* directory as given (may be ""), made absolute; base name *)
+  Variables fil_of file_name : nat -> nat -> string.      (* the argument of _load; the absolute name of dir/base.py *)
+  Variable config_of : nat -> pyval.                      (* the CONFIG dict that names path c *)
+  Variable spec_of : nat -> nat -> pyval.                 (* the ModuleSpec for dir/base.py *)
+  Variable s0 : string.
+  Variable path_rest : list pyval.
+
+  Definition enc_mod (d b c : nat) : pyval :=
+    PObj [("__class__", PStr "module"); ("file", PStr (file_name d b)); ("CONFIG", config_of c)].
+  Definition enc_lres (b : nat) (r : lres) : pyval :=
+    match r with LMod d c => enc_mod d b c | LRaise n => PExc n end.
+
+  Hypothesis split_spec : forall d b, path_split (PStr (fil_of d b)) = PList [PStr (head_of d); PStr (base_name b)].
+  Hypothesis insert_spec : forall s, path_insert (PInt 0%Z) (PStr s) = PNone.
+  (* answered with the directory just put in front of sys.path *)
+  Hypothesis import_spec : forall d b,
+    import_module (PStr (head_of d)) (PStr (base_name b)) =
+    match import_result st d b with Some (d0, c0) => enc_mod d0 b c0 | None => PExc "ModuleNotFoundError" end.
+  Hypothesis abspath_spec : forall d,
+    abspath (if py_truthy (PStr (head_of d)) then PStr (head_of d) else PStr ".") = PStr (abs_of d).
+  Hypothesis join_spec : forall d b, path_join (PStr (abs_of d)) (PStr (base_name b ++ ".py")) = PStr (file_name d b).
+  Hypothesis file_name_nonempty : forall d b, is_empty (file_name d b) = false.
+  Hypothesis isfile_spec : forall d b,
+    isfile (PStr (file_name d b)) = PBool (match cf_read (cfiles st) d b with Some _ => true | None => false end).
+  Hypothesis samefile_spec : forall d0 d b,
+    samefile (PStr (file_name d0 b)) (PStr (file_name d b)) =
+    match cf_read (cfiles st) d0 b with Some _ => PBool (Nat.eqb d0 d) | None => PExc "FileNotFoundError" end.
+  Hypothesis spec_spec : forall d b, spec_from_file (PStr (base_name b)) (PStr (file_name d b)) = spec_of d b.
+  Hypothesis spec_good : forall d b, is_bad (spec_of d b) = false.
+  (* the module as exec_module leaves it: the file as it is NOW *)
+  Hypothesis module_spec : forall d b,
+    module_from_spec (spec_of d b) =
+    match cf_read (cfiles st) d b with Some c => enc_mod d b c | None => PExc "FileNotFoundError" end.
+  Hypothesis exec_spec : forall d b m, exec_module (spec_of d b) m = PNone.
+
+  Theorem src2_config_load_module_is_model : forall self d b,
+    src2_config_load_module path_split (PList (PStr s0 :: path_rest)) path_insert import_module abspath path_join isfile
+      samefile spec_from_file module_from_spec exec_module self (PStr (fil_of d b))
+    = enc_lres b (load_which st d b).
+  Proof.
+    intros self d b. unfold src2_config_load_module. cbv zeta. cbn [py_bind].
+    rewrite split_spec. cbn [py_bind p2_unpack length Nat.eqb].
+    (* the three ways to the import differ in what is put on sys.path only *)
+    match goal with |- match ?c with BTrue => match ?c2 with BTrue => py_bind _ (fun _ => ?K) | BFalse => _ | BExc _ => _ | BErr => _ end
+                                   | BFalse => _ | BExc _ => _ | BErr => _ end = _ =>
+      assert (E : forall x, match c with BTrue => match c2 with BTrue => py_bind (path_insert (PInt 0%Z) (PStr ".")) (fun _ => x)
+                                                               | BFalse => x | BExc n => PExc n | BErr => PErr end
+                                   | BFalse => py_bind (path_insert (PInt 0%Z) (PStr (head_of d))) (fun _ => x)
+                                   | BExc n => PExc n | BErr => PErr end = x)
+    end.
+    { intros x. rewrite p2_eq_str. destruct (String.eqb (head_of d) ""); rewrite p2_branch_bool.
+      - change (p2_getitem (PList (PStr s0 :: path_rest)) (PInt 0%Z)) with (PStr s0). rewrite p2_ne_str.
+        destruct (negb (String.eqb s0 ".")); rewrite p2_branch_bool; [rewrite insert_spec|]; reflexivity.
+      - rewrite insert_spec. reflexivity. }
+    cbn [py_bind] in E |- *. rewrite E. clear E.
+    rewrite import_spec. unfold load_which.
+    destruct (import_result st d b) as [[d0 c0]|]; [|reflexivity].
+    unfold enc_mod at 1. cbn [py_bind].
+    assert (A : py_bind (p2_or (PStr (head_of d)) (PStr ".")) (fun a_4 => abspath a_4) = PStr (abs_of d)).
+    { rewrite p2_or_good by reflexivity. pose proof (abspath_spec d) as A.
+      destruct (py_truthy (PStr (head_of d))); cbn [py_bind]; exact A. }
+    rewrite A. clear A. cbn [py_bind p2_fconcat p2_str s1 append].
+    rewrite join_spec. cbn [py_bind].
+    change (p2_getattr3 (PObj [("__class__", PStr "module"); ("file", PStr (file_name d0 b)); ("CONFIG", config_of c0)]) "file" PNone)
+      with (PStr (file_name d0 b)).
+    cbn [py_bind]. rewrite p2_and_good by reflexivity. cbn [py_truthy]. rewrite file_name_nonempty. cbn [negb].
+    rewrite isfile_spec. destruct (cf_read (cfiles st) d b) as [cnow|] eqn:W.
+    - rewrite p2_and_good by reflexivity. cbn [py_truthy]. rewrite samefile_spec.
+      destruct (cf_read (cfiles st) d0 b) as [x|] eqn:F.
+      + destruct (Nat.eqb d0 d); cbn [p2_not s1 py_truthy negb p2_branch]; [reflexivity|].
+        rewrite spec_spec. rewrite (py_bind_good (spec_of d b)) by apply spec_good.
+        rewrite (py_bind_good (spec_of d b)) by apply spec_good. rewrite module_spec, W.
+        unfold enc_mod. cbn [py_bind]. rewrite exec_spec. reflexivity.
+      + destruct (Nat.eqb d0 d) eqn:E.
+        * apply Nat.eqb_eq in E. subst d0. congruence.
+        * reflexivity.
+    - rewrite p2_and_good by reflexivity. cbn [py_truthy]. rewrite p2_branch_bool. reflexivity.
+  Qed.
+
+  (* Config.load_file(name): ".py" is cut off, the module is loaded, its CONFIG is deep-copied and handed to
+     self.load; an exception of the loader comes through *)
+  Variables deepcopy : pyval -> pyval.
+  Variable config_load : pyval -> pyval -> pyval.
+  Variable load_fn : pyval -> pyval -> pyval.         (* self._load *)
+  Hypothesis config_good : forall c, is_bad (config_of c) = false.
+  Hypothesis deepcopy_spec : forall c, deepcopy (config_of c) = config_of c.
+
+  Definition enc_loaded (self : pyval) (b : nat) (r : lres) : pyval :=
+    match r with LMod _ c => config_load self (config_of c) | LRaise n => PExc n end.
+
+  Lemma load_file_tail self b r :
+    py_bind (enc_lres b r)
+      (fun v_mod => py_bind (py_bind (p2_attr v_mod "CONFIG") (fun a_2 => deepcopy a_2)) (fun a_3 => config_load self a_3))
+    = enc_loaded self b r.
+  Proof.
+    destruct r as [d c|n]; [|reflexivity]. unfold enc_lres, enc_mod. cbn [py_bind].
+    change (p2_attr _ "CONFIG") with (config_of c).
+    rewrite (py_bind_good (config_of c)) by apply config_good. rewrite deepcopy_spec.
+    rewrite (py_bind_good (config_of c)) by apply config_good. reflexivity.
+  Qed.
+
+  (* a name without ".py" *)
+  Theorem src2_config_load_file_plain : forall self name b r,
+    endswith name ".py" = false -> load_fn self (PStr name) = enc_lres b r ->
+    src2_config_load_file load_fn deepcopy config_load self (PStr name) PNone = enc_loaded self b r.
+  Proof.
+    intros self name b r E L. unfold src2_config_load_file. cbv zeta. cbn [p2_is_not_none s1 p2_branch py_truthy].
+    change (p2_endswith (PStr name) (PStr ".py")) with (PBool (endswith name ".py")). rewrite E. cbn [p2_branch py_truthy py_bind].
+    rewrite L. apply load_file_tail.
+  Qed.
+
+  (* a name with ".py": exactly these three characters are cut off *)
+  Theorem src2_config_load_file_py : forall self name b r,
+    endswith name ".py" = true -> all_ascii name = true -> 3 <= String.length name ->
+    load_fn self (PStr (substring 0 (String.length name - 3) name)) = enc_lres b r ->
+    src2_config_load_file load_fn deepcopy config_load self (PStr name) PNone = enc_loaded self b r.
+  Proof.
+    intros self name b r E A N L. unfold src2_config_load_file. cbv zeta. cbn [p2_is_not_none s1 p2_branch py_truthy].
+    change (p2_endswith (PStr name) (PStr ".py")) with (PBool (endswith name ".py")). rewrite E. cbn [p2_branch py_truthy].
+    assert (S : p2_slice (PStr name) PNone (PInt (-3)%Z) = PStr (substring 0 (String.length name - 3) name)).
+    { unfold p2_slice, s3. cbn [py_bind]. rewrite A. cbn [slice_bound as_z]. change (-3 <? 0)%Z with true. cbv iota.
+      replace (Nat.min (String.length name) (Z.to_nat (Z.max 0 (-3 + Z.of_nat (String.length name)))) - 0)
+        with (String.length name - 3) by lia.
+      reflexivity. }
+    rewrite S. cbn [py_bind]. rewrite L. apply load_file_tail.
+  Qed.
+
+  Theorem src2_config_load_file_is_model : forall self name b r,
+    (endswith name ".py" = false /\ load_fn self (PStr name) = enc_lres b r) \/
+    (endswith name ".py" = true /\ all_ascii name = true /\ 3 <= String.length name /\
+     load_fn self (PStr (substring 0 (String.length name - 3) name)) = enc_lres b r) ->
+    src2_config_load_file load_fn deepcopy config_load self (PStr name) PNone = enc_loaded self b r.
+  Proof.
+    intros self name b r [[E L]|(E & A & N & L)].
+    - exact (src2_config_load_file_plain self name b r E L).
+    - exact (src2_config_load_file_py self name b r E A N L).
+  Qed.
+End Loader.
+
+(* a DLoadFile step of Model.loaded is that load followed by the constructor *)
+Corollary loaded_load_file fs cf st d b a sp r :
+  loaded fs cf st (DLoadFile d b a sp :: r)
+  = build_slot fs (lres_content (load_which st d b)) :: loaded fs cf (snd (load_module true st d b)) r.
+Proof.
+  unfold loaded. cbn [loaded_gen]. rewrite load_which_is_model. destruct (load_module true st d b); reflexivity.
+Qed.
+
+(* the hypotheses of Section Loader are satisfiable: directories and base names are spelt by their length, a file
+   name is <ones d>/<ones b>; two tenant directories hold a file of base name 0, a module of that name is loaded *)
+Fixpoint lead1 (s : string) : nat := match s with String "1" r => S (lead1 r) | _ => 0 end.
+Fixpoint after_slash (s : string) : string :=
+  match s with String "/" r => r | String _ r => after_slash r | EmptyString => EmptyString end.
+
+Lemma lead1_ones d r : lead1 (ones d ++ String "/" r) = d.
+Proof. induction d as [|d IH]; [reflexivity|]. cbn [ones append lead1]. rewrite IH. reflexivity. Qed.
+Lemma lead1_ones_end b : lead1 (ones b) = b.
+Proof. induction b as [|b IH]; [reflexivity|]. cbn [ones lead1]. rewrite IH. reflexivity. Qed.
+Lemma after_slash_ones d r : after_slash (ones d ++ String "/" r) = r.
+Proof. induction d as [|d IH]; [reflexivity|]. cbn [ones append after_slash]. exact IH. Qed.
+Lemma length_app_str a b : String.length (a ++ b) = String.length a + String.length b.
+Proof. induction a as [|c a IH]; [reflexivity|]. cbn [append String.length]. rewrite IH. reflexivity. Qed.
+
+Definition ex_state : lstate :=
+  {| cfiles := [((0, 0), Some 0); ((1, 0), Some 1)]; mods := [(0, (0, 0))]; spath := [0] |}.
+Definition ex_file (d b : nat) : string := ones d ++ String "/" (ones b).
+Definition ex_dir (s : string) : nat := lead1 s.
+Definition ex_base (s : string) : nat := lead1 (after_slash s).
+Definition ex_config (c : nat) : pyval := PObj [("key_file", PInt (Z.of_nat c))].
+Definition ex_spec (d b : nat) : pyval := PObj [("__class__", PStr "ModuleSpec"); ("origin", PStr (ex_file d b))].
+Definition ex_mod (d b c : nat) : pyval :=
+  PObj [("__class__", PStr "module"); ("file", PStr (ex_file d b)); ("CONFIG", ex_config c)].
+
+Example loader_hypotheses_satisfiable :
+  exists (path_split abspath isfile module_from_spec : pyval -> pyval)
+         (path_insert import_module path_join samefile spec_from_file exec_module : pyval -> pyval -> pyval)
+         (head_of abs_of base_name : nat -> string) (fil_of file_name : nat -> nat -> string)
+         (config_of : nat -> pyval) (spec_of : nat -> nat -> pyval) (deepcopy : pyval -> pyval),
+    (forall d b, path_split (PStr (fil_of d b)) = PList [PStr (head_of d); PStr (base_name b)]) /\
+    (forall s, path_insert (PInt 0%Z) (PStr s) = PNone) /\
+    (forall d b, import_module (PStr (head_of d)) (PStr (base_name b)) =
+                 match import_result ex_state d b with
+                 | Some (d0, c0) => enc_mod file_name config_of d0 b c0
+                 | None => PExc "ModuleNotFoundError"
+                 end) /\
+    (forall d, abspath (if py_truthy (PStr (head_of d)) then PStr (head_of d) else PStr ".") = PStr (abs_of d)) /\
+    (forall d b, path_join (PStr (abs_of d)) (PStr (base_name b ++ ".py")) = PStr (file_name d b)) /\
+    (forall d b, is_empty (file_name d b) = false) /\
+    (forall d b, isfile (PStr (file_name d b)) =
+                 PBool (match cf_read (cfiles ex_state) d b with Some _ => true | None => false end)) /\
+    (forall d0 d b, samefile (PStr (file_name d0 b)) (PStr (file_name d b)) =
+                    match cf_read (cfiles ex_state) d0 b with
+                    | Some _ => PBool (Nat.eqb d0 d)
+                    | None => PExc "FileNotFoundError"
+                    end) /\
+    (forall d b, spec_from_file (PStr (base_name b)) (PStr (file_name d b)) = spec_of d b) /\
+    (forall d b, is_bad (spec_of d b) = false) /\
+    (forall d b, module_from_spec (spec_of d b) =
+                 match cf_read (cfiles ex_state) d b with
+                 | Some c => enc_mod file_name config_of d b c
+                 | None => PExc "FileNotFoundError"
+                 end) /\
+    (forall d b m, exec_module (spec_of d b) m = PNone) /\
+    (forall c, is_bad (config_of c) = false) /\ (forall c, deepcopy (config_of c) = config_of c) /\
+    (* the second tenant's file of the name already loaded: its own file is executed; a file that is not there:
+       the module loaded from the other directory (C20-F3) *)
+    load_which ex_state 1 0 = LMod 1 1 /\ load_which ex_state 0 0 = LMod 0 0 /\ load_which ex_state 2 0 = LMod 0 0 /\
+    load_which ex_state 2 1 = LRaise "ModuleNotFoundError".
+Proof.
+  exists (fun v => match v with
+                   | PStr s => PList [PStr (String "h" (ones (ex_dir s))); PStr (String "m" (ones (ex_base s)))]
+                   | _ => PErr end),
+         (fun v => match v with PStr s => PStr (String "a" (ones (String.length s - 1))) | _ => PErr end),
+         (fun v => match v with
+                   | PStr s => PBool (match cf_read (cfiles ex_state) (ex_dir s) (ex_base s) with Some _ => true | None => false end)
+                   | _ => PErr end),
+         (fun v => match v with
+                   | PObj [_; (_, PStr s)] => match cf_read (cfiles ex_state) (ex_dir s) (ex_base s) with
+                                              | Some c => ex_mod (ex_dir s) (ex_base s) c
+                                              | None => PExc "FileNotFoundError"
+                                              end
+                   | _ => PErr end),
+         (fun _ _ => PNone),
+         (fun h m => match h, m with
+                     | PStr h, PStr m => match import_result ex_state (String.length h - 1) (String.length m - 1) with
+                                         | Some (d0, c0) => ex_mod d0 (String.length m - 1) c0
+                                         | None => PExc "ModuleNotFoundError"
+                                         end
+                     | _, _ => PErr end),
+         (fun a m => match a, m with
+                     | PStr a, PStr m => PStr (ex_file (String.length a - 1) (String.length m - 4))
+                     | _, _ => PErr end),
+         (fun f0 f => match f0, f with
+                      | PStr f0, PStr f => match cf_read (cfiles ex_state) (ex_dir f0) (ex_base f0) with
+                                           | Some _ => PBool (Nat.eqb (ex_dir f0) (ex_dir f))
+                                           | None => PExc "FileNotFoundError"
+                                           end
+                      | _, _ => PErr end),
+         (fun _ f => PObj [("__class__", PStr "ModuleSpec"); ("origin", f)]),
+         (fun _ _ => PNone),
+         (fun d => String "h" (ones d)), (fun d => String "a" (ones d)), (fun b => String "m" (ones b)),
+         ex_file, ex_file, ex_config, ex_spec, (fun v => v).
+  assert (D : forall d b, ex_dir (ex_file d b) = d) by (intros; apply lead1_ones).
+  assert (B : forall d b, ex_base (ex_file d b) = b)
+    by (intros d b; unfold ex_base, ex_file; rewrite after_slash_ones; apply lead1_ones_end).
+  assert (L : forall c n, String.length (String c (ones n)) - 1 = n)
+    by (intros c n; cbn [String.length]; rewrite ones_len; lia).
+  repeat split; try reflexivity.
+  - intros d b. rewrite D, B. reflexivity.
+  - intros d b. rewrite !L. reflexivity.
+  - intros d. cbn [py_truthy is_empty negb]. rewrite L. reflexivity.
+  - intros d b. rewrite L. f_equal. f_equal. rewrite length_app_str. cbn [String.length]. rewrite ones_len. lia.
+  - intros d b. unfold ex_file. destruct d; reflexivity.
+  - intros d b. rewrite D, B. reflexivity.
+  - intros d0 d b. rewrite !D, B. reflexivity.
+  - intros d b. unfold ex_spec. rewrite D, B. reflexivity.
 Qed.
